@@ -15,6 +15,7 @@ import RecipeGrid.Model.CacheDispatch
 import RecipeGrid.Model.MdCompileDispatch
 import RecipeGrid.Model.MdHeadingDispatch
 import RecipeGrid.Model.DataUrlDispatch
+import RecipeGrid.Model.PageValuesDispatch
 import RecipeGrid.Model.MarkdownDispatch
 import RecipeGrid.Model.SiteDispatch
 import RecipeGrid.Model.FsDispatch
@@ -107,6 +108,6 @@ def dispatch : Sexp → Sexp
     match Tree.ofSexp? sub, i.asNat?, Amount.ofSexp? a with
     | some sub, some i, some a => invResult (mkReference sub i a)
     | _, _, _ => err "args"
-  | req => (((((((((((((((((((dispatchParser req).orElse fun _ => dispatchParserErr req).orElse fun _ => dispatchMarkdown req).orElse fun _ => dispatchSite req).orElse fun _ => fsDispatch req).orElse fun _ => dispatchMdBlocks req).orElse fun _ => dispatchBrace req).orElse fun _ => dispatchEnumerate req).orElse fun _ => dispatchSiteSources req).orElse fun _ => dispatchTemplates req).orElse fun _ => dispatchPeg req).orElse fun _ => dispatchNumberReader req).orElse fun _ => dispatchMdContainers req).orElse fun _ => dispatchRx req).orElse fun _ => dispatchPegRe req).orElse fun _ => dispatchCache req).orElse fun _ => dispatchMdCompile req).orElse fun _ => dispatchMdHeading req).orElse fun _ => dispatchDataUrl req).getD (err "unknown")
+  | req => ((((((((((((((((((((dispatchParser req).orElse fun _ => dispatchParserErr req).orElse fun _ => dispatchMarkdown req).orElse fun _ => dispatchSite req).orElse fun _ => fsDispatch req).orElse fun _ => dispatchMdBlocks req).orElse fun _ => dispatchBrace req).orElse fun _ => dispatchEnumerate req).orElse fun _ => dispatchSiteSources req).orElse fun _ => dispatchTemplates req).orElse fun _ => dispatchPeg req).orElse fun _ => dispatchNumberReader req).orElse fun _ => dispatchMdContainers req).orElse fun _ => dispatchRx req).orElse fun _ => dispatchPegRe req).orElse fun _ => dispatchCache req).orElse fun _ => dispatchMdCompile req).orElse fun _ => dispatchMdHeading req).orElse fun _ => dispatchDataUrl req).orElse fun _ => dispatchPageValues req).getD (err "unknown")
 
 end RG
